@@ -273,6 +273,16 @@ RED_IDS = (
     "hc:str", "str3p", "int:E1", "estr", "int:byte",
 )
 
+MID_IDS = (
+    "int:byte", "int:char", "int:int", "int:bool:short", "int:E1", "int:E1:short", "int:E3:char",
+    "struct:P", "struct:V", "struct:U", "struct:K", "struct:O", "struct:F",
+    "str", "estr", "blob", "str3p", "estr3p",
+    "hc:char", "hc:str", "hcn:str", "hcn:bool", "hc:str-esc",
+    "opt:char", "opt:str", "opt:P", "opt:arr",
+    "len:str", "len:str-1", "len:arr", "len:darrU-nt", "optlen:str",
+    "arr:char", "arr:P", "arr:V", "arr:F", "darr:U", "darr:U:nt", "darr:K", "darr:U2:nt", "darr:str",
+    "dummy:char", "dummy:str", "break",
+)
 FLAG_IDS = ("opt:char", "dummy:char", "break", "int:char")
 NEST_IDS = ("str", "int:char")
 HOISTED_CHAR = (("char", "1", "2"), ("char", "1", "2", "hoist"))
@@ -417,5 +427,6 @@ def grammar(tier):
         add(enumerate_bodies(nest, 5, switch_on=HOISTED_CHAR))
         add(enumerate_bodies(temps, 2))
         add(enumerate_bodies(red, 4, switch_on=SWITCH_ON[:2]))
-        add(enumerate_bodies(temps, 3, switch_on=SWITCH_ON[:1]))
+        mid = [t for t in temps if t["id"] in MID_IDS]
+        add(enumerate_bodies(mid, 3, switch_on=SWITCH_ON[:1]))
     return out
